@@ -63,7 +63,14 @@ func c18GenRefs(t *rapid.T) *c18RefDoc {
 		case "mask":
 			return fmt.Sprintf(` mask="url(#%s)"`, id)
 		case "marker":
-			return fmt.Sprintf(` marker-%s="url(#%s)"`, rapid.SampledFrom([]string{"start", "mid", "end"}).Draw(t, "mpos"), id)
+			// one marker may stand at several vertices of a shape
+			switch rapid.IntRange(0, 4).Draw(t, "mpos") {
+			case 0:
+				return fmt.Sprintf(` marker-start="url(#%s)" marker-end="url(#%s)"`, id, id)
+			case 1:
+				return fmt.Sprintf(` marker-start="url(#%s)" marker-mid="url(#%s)" marker-end="url(#%s)"`, id, id, id)
+			}
+			return fmt.Sprintf(` marker-%s="url(#%s)"`, rapid.SampledFrom([]string{"start", "mid", "end"}).Draw(t, "mpos1"), id)
 		}
 		return ""
 	}
